@@ -186,8 +186,11 @@ let exec_read (ctx : ctx) (st : st) (tok : string) : string =
         | M.RGarbage -> fs @ [M.Garb]
         | M.RPanic -> fs @ [M.Boom]) } in
       show_script (C.cursor_script rv C.cursor_new (parse_script p.(1)))
-    end else if cached then begin
-      (* every cached read materialises first *)
+    end else if cached && m = "la" && vlen = N0 then
+      (* collect_last on an empty vector returns before it reaches the wrapper's read path: the cache is not touched *)
+      "o none @ -"
+    else if cached then begin
+      (* every other cached read materialises first *)
       let k0 = cache_for ctx target in
       let hit = (match k0 with Some (l, _) -> l = vlen | None -> false) in
       if not hit then ctx.poison <- None;
